@@ -30,4 +30,36 @@ def failsWith {α : Type} (r : Except Err α) (e : Err) : Bool :=
 def sameNode (a b : Except Err Node) : Bool :=
   match a, b with | .ok x, .ok y => x == y | _, _ => false
 
+/-! ### Closed form of a long chain of empty blocks (the harness' base image)
+
+Storing 8000+ blocks one by one on sorted association lists is quadratic; the chains that reach the
+event-filter window boundary start from `bulkNode`, the node after `hs.length` blocks without
+transactions, events or state changes. `Props.lean` has the instance `storeAll … = bulkNode …` for a
+chain that closes a window; the harness compares every bucket family of the real database with it. -/
+
+def plainBlock (v n h p : Nat) : Block :=
+  { number := n, hash := h, parent := p, ver := v, txs := [], bloom := 0, payload := 0, diff := Diff.empty, classes := [],
+    oldRoot := Root.zero, newRoot := Root.zero }
+
+/-- blocks `n, n+1, …` with the given hashes, each on top of the previous one -/
+def plainChain (v : Nat) : Nat → Nat → List Nat → List Block
+  | _, _, [] => []
+  | n, p, h :: hs => plainBlock v n h p :: plainChain v (n + 1) h hs
+
+def bulkNode (cfg : Cfg) (v : Nat) (hs : List Nat) : Node :=
+  let n := hs.length
+  let idx := List.range n
+  let parents := 0 :: hs
+  { height := if n = 0 then none else some (n - 1),
+    headers := (hs.zip parents).zipIdx.map (fun e => (e.2, (⟨e.1.1, e.1.2, v, 0, 0, Root.zero⟩ : Header))),
+    numByHash := Map.setAll [] hs.zipIdx,
+    blockTxs := idx.map (fun i => (i, [])),
+    txLoc := [], l1msg := [],
+    sus := idx.map (fun i => (i, (⟨Diff.empty, Root.zero, Root.zero⟩ : SU))),
+    commitments := idx.map (fun i => (i, 0)),
+    casm := [],
+    persisted := (List.range (n / cfg.window)).map (fun k => (k * cfg.window, [])),
+    running := ⟨n - n % cfg.window, n, []⟩,
+    st := State.empty }
+
 end Juno.C04
